@@ -70,12 +70,12 @@ Qed.
 Lemma lands_hex_next s bg fg x y w h tx ty : lands high (hex_next s bg fg x y w h tx ty).
 Proof.
   unfold hex_next. destruct (tx + 16 >=? x + w); cbn zeta;
-    (destruct (_ >=? y + h); [apply lands_do_connection|cbn; unfold high; cbn; split; [lia|exact I]]).
+    (destruct (_ || _); [apply lands_do_connection|cbn; unfold high; cbn; split; [lia|exact I]]).
 Qed.
 
 Lemma lands_hex_first s x y w h : lands high (hex_first s x y w h).
 Proof.
-  unfold hex_first. destruct (y >=? y + h); [apply lands_do_connection|cbn; unfold high; cbn; split; [lia|exact I]].
+  unfold hex_first. destruct (_ || _); [apply lands_do_connection|cbn; unfold high; cbn; split; [lia|exact I]].
 Qed.
 
 Lemma lands_client_init s : lands high (client_init s).
